@@ -723,6 +723,11 @@ class Channel:
                     break
         for a, b in sorted(pairs):
             self.observe_read(D, a, b, rng, rd, light=rng.random() < 0.5)
+        if pts:
+            # one request that spans far more than a thousand file periods around the recording
+            wide = 1500 * max(cc.bound[i + 1] - cc.bound[i] for i in range(len(cc.bound) - 1))
+            if wide < 2**29:
+                self.observe_read(D, max(-cc.B, pts[0] - wide), pts[-1] + wide, rng, rd, light=True)
         for _ in range(nvec):
             if not pts:
                 break
